@@ -100,7 +100,7 @@ func genC20(e *emitter, tier string) {
 
 // the same history run over several versions and, translated, over one
 func runHistorySim(e *emitter, multi, single *histConf, records *[]*fieldpath.Set) {
-	opts := histOpts{plainConfigs: true, degenerate: e.rng.Intn(3) == 0, noDups: true}
+	opts := histOpts{plainConfigs: true, degenerate: e.rng.Intn(3) == 0, noDups: false}
 	stm := newState(multi, "v1")
 	sts := newState(single, "v1")
 	updVer := map[string]string{}
